@@ -8,6 +8,7 @@ mod replay;
 mod rng;
 mod run;
 mod snap;
+mod cppexport;
 mod targets;
 
 use std::{
@@ -175,6 +176,7 @@ fn main() {
         "explore" => plans::explore_cmd(&args),
         "replay" => replay::replay_cmd(&args),
         "snap" => snap::snap_cmd(&args),
+        "cpp-export" => cppexport::export_cmd(&args),
         _ => {
             eprintln!("usage: vh cases|run|explore|replay ...");
             std::process::exit(2);
